@@ -200,6 +200,7 @@ def run_check(pid, tier, seed):
     ctx = multiprocessing.get_context("forkserver")
     ctx.set_forkserver_preload(["symex.driver", "harness." + pid])
     stopped_early = None
+    confirmed = {}      # id(result) -> replay outcome obtained by the fail-fast probe
     with ctx.Pool(nproc, maxtasksperchild=getattr(H, "TASKS_PER_CHILD", 8)) as pool:
         nviol = 0
         next_probe = FAILFAST_AFTER
@@ -231,8 +232,12 @@ def run_check(pid, tier, seed):
                     next_probe = nviol + FAILFAST_AFTER
                     try:
                         b = bt.get()
-                        cand = [x["violation"]["case"] for x in results if x["violation"]][-FAILFAST_AFTER:]
-                        if any(o.get("violates") for o in b.run_cases(cand)):
+                        crs = [x for x in results if x["violation"]][-FAILFAST_AFTER:]
+                        outs = b.run_cases([x["violation"]["case"] for x in crs])
+                        for x, o in zip(crs, outs):
+                            if o.get("violates"):
+                                confirmed[id(x)] = o
+                        if confirmed:
                             stopped_early = len(work) - len(results)
                             pool.terminate()
                             break
@@ -253,16 +258,19 @@ def run_check(pid, tier, seed):
         # replay at most MAX_REPLAYS_PER_KIND candidates of each kind (the rest are the same defect seen from other configurations)
         per_kind = {}
         viol = []
-        for r in viol_all:
+        # candidates the fail-fast probe already reproduced come first (and are not replayed again)
+        for r in sorted(viol_all, key=lambda r: id(r) not in confirmed):
             k = r["violation"]["kind"].split("[")[0][:60]
             per_kind[k] = per_kind.get(k, 0) + 1
-            if per_kind[k] <= getattr(H, "MAX_REPLAYS_PER_KIND", 8):
+            if per_kind[k] <= getattr(H, "MAX_REPLAYS_PER_KIND", 8) or id(r) in confirmed:
                 viol.append(r)
         viol_cases = [r["violation"]["case"] for r in viol]
         real_violations = []
         mismatches = []
         if viol_cases:
-            rr = build.run_cases(viol_cases)
+            todo = [r for r in viol if id(r) not in confirmed]
+            fresh = dict(zip([id(r) for r in todo], build.run_cases([r["violation"]["case"] for r in todo])))
+            rr = [confirmed.get(id(r)) or fresh[id(r)] for r in viol]
             for r, out in zip(viol, rr):
                 case = r["violation"]["case"]
                 if out.get("violates"):
